@@ -86,7 +86,7 @@ func c15ValidPrefixes() [][]byte {
 func TestVerifC15Decoders(t *testing.T) {
 	rec := verifkit.NewRecorder("C15", "decoders")
 	defer rec.Flush()
-	dir := t.TempDir()
+	dir := verifkit.ScratchDir(t, "scratch")
 	valid := c15ValidPrefixes()
 	hostile := [][]byte{{0xff, 0xff, 0xff, 0xff}, {0xff, 0xff}, {0x7f, 0xff, 0xff, 0xff}, {0x80, 0, 0, 0}, {0, 0, 0, 0}, {0, 0x10, 0, 0}}
 	judge := func(f verifkit.Failer, dec int, data []byte, what string) bool {
@@ -593,7 +593,7 @@ func TestVerifC15Child(t *testing.T) {
 	jf, _ := os.OpenFile(journal, os.O_CREATE|os.O_WRONLY|os.O_APPEND, 0644)
 	rf, _ := os.OpenFile(results, os.O_CREATE|os.O_WRONLY|os.O_APPEND, 0644)
 	x := verifkit.XorShift(seed)
-	dir := t.TempDir()
+	dir := verifkit.ScratchDir(t, "scratch")
 	for i := 0; i < to; i++ {
 		c := c15Gen(&x, i)
 		if i < from {
@@ -603,6 +603,7 @@ func TestVerifC15Child(t *testing.T) {
 		r := c15RunCase(c, dir)
 		fmt.Fprintf(rf, "%d\t%v\t%d\t%d\t%d\t%s\t%s\n", i, r.Returned, r.Alloc, r.Bytes, r.Dur.Milliseconds(), c, r.Err)
 	}
+	os.RemoveAll(dir)
 	os.Exit(0)
 }
 
@@ -616,7 +617,7 @@ func TestVerifC15Staged(t *testing.T) {
 }
 
 func runChildBatches(t *testing.T, rec *verifkit.Recorder, seed uint64, total, batch int) {
-	dir := t.TempDir()
+	dir := verifkit.ScratchDir(t, "scratch")
 	bin := os.Getenv("VERIF_TESTBIN")
 	if bin == "" {
 		bin = os.Args[0]
